@@ -19,6 +19,16 @@ Two threads racing `close()` against a received close are covered as the orders 
 namespace Rpyc.Props.C11
 open Rpyc.Proto.Life
 
+/-! ### the obligations on the code (facts measured on the live classes by the constants generator, `Gen.Proto.*`) -/
+
+/-- a request made from inside the delivery of a response that meets the end closes the connection -/
+theorem obligation_dispatch_closes_on_eof : Gen.Proto.dispatchClosesOnEof = true := dispatch_closes_on_eof
+/-- a second `_cleanup` on the same connection returns quietly -/
+theorem obligation_cleanup_idempotent : Gen.Proto.cleanupIdempotent = true := cleanup_idempotent
+/-- when the stream's own close() raises, the hook still runs and everything is still released -/
+theorem obligation_cleanup_survives_channel_close_error : Gen.Proto.cleanupSurvivesChannelCloseError = true :=
+  cleanup_survives_channel_close_error
+
 /-! ### (1)–(3) once, exactly once when closed, tables cleared -/
 
 /-- **hook_at_most_once.** The disconnect hook never runs twice. -/
@@ -47,7 +57,8 @@ theorem tables_cleared_on_close {l : Life} (h : Reach l) (hc : l.closed = true) 
 /-! ### (4) closing again -/
 
 /-- **close_idempotent.** `close()` on a closed side changes nothing: no second hook run, no exception, no
-state change at all. -/
+state change at all.  (Definitional: it restates the first line of `close()` — `if self._closed: return` — as the
+automaton has it; what ties that line to the code is the correspondence, where every run closes twice.) -/
 theorem close_idempotent (l : Life) (hc : l.closed = true) : step l .closeAgain = some l := by
   simp [step, hc]
 
@@ -166,11 +177,41 @@ theorem serve_all_exit_leads_to_closed {l : Life} (h : Reach l) (r : TryRes) :
   intro hi
   exact clean_of_closed (reach_step (e := .serveAllExit r) h rfl) c.2.1 (by rw [c.2.2.1]; exact hi)
 
-/-- a failure while a REQUEST is being written is not met while serving: the requester gets EOFError, the
-channel is dead, but the statement does not ask this side to be closed by it — and the code does not close
-it (the next `serve()` or `close()` does) -/
-theorem fail_send_request_does_not_close :
-    ∃ l, run Life.init [.issue 0 false, .failSendRequest 1] = some l ∧ l.closed = false ∧ l.chanClosed = true
+/-- **failure of a request made while a response is being delivered** (`_unbox` inspecting the class of a first
+reference, a result callback issuing a request): the end is met while serving — always possible, the side becomes
+closed (cleanly unless inside a `close()` call in progress), every blocked waiter is released.  (Obligation
+`dispatch_closes_on_eof`, measured on the code: before the repair only the MSG_REQUEST branch of `_dispatch` closed.) -/
+theorem fail_send_nested_leads_to_closed {l : Life} (h : Reach l) (s : Nat) (r : TryRes) (hs : s ∉ l.issued) :
+    ∃ l', step l (.failSendNested s r) = some l' ∧ l'.closed = true ∧ l'.chanClosed = true
+      ∧ (l.inClose = false → Clean l') ∧ l'.blocked = [] ∧ (s, Res.eof) ∈ l'.outcomes := by
+  have hstep : ∃ l', step l (.failSendNested s r) = some l' := by
+    simp only [step, dispatch_closes_on_eof, if_true]
+    simp [hs]
+  obtain ⟨l', hl'⟩ := hstep
+  have h' := reach_step h hl'
+  refine ⟨l', hl', ?_⟩
+  simp only [step, dispatch_closes_on_eof, if_true] at hl'
+  split at hl'
+  · cases hl'
+  simp only [Option.some.injEq] at hl'
+  have hf : Flags { l with issued := l.issued ++ [s], chanClosed := true, outcomes := l.outcomes ++ [(s, .eof)] } := by
+    have f := h.inv.flags
+    exact ⟨f.hook, fun hc => ⟨(f.cl hc).1, rfl, (f.cl hc).2.2⟩, f.done, f.inc, f.tab⟩
+  have c := closeCall_flags r _ hf
+  have hcl : l'.closed = true := by rw [← hl']; exact c.2.1
+  refine ⟨hcl, by rw [← hl']; exact c.2.2.2 rfl, ?_, by rw [← hl']; rfl, ?_⟩
+  · intro hi
+    exact clean_of_closed h' hcl (by rw [← hl']; show (closeCall r _).1.inClose = false; rw [c.2.2.1]; exact hi)
+  · rw [← hl']
+    simp only [resolveBlocked, List.mem_append]
+    refine Or.inl ?_
+    rw [(closeCall_lists r _).1]
+    simp
+
+/-- a failure while a TOP-LEVEL request is being written (the application calling `async_request`, not inside `serve()`)
+is not met while serving: the requester gets EOFError, the channel is dead, and the code does not close the side (its
+next `serve()` or `close()` does).  (A concrete run, by evaluation.) -/
+example : ∃ l, run Life.init [.issue 0 false, .failSendRequest 1] = some l ∧ l.closed = false ∧ l.chanClosed = true
       ∧ l.outcomes = [(1, .eof)] ∧ l.pending = [0] :=
   ⟨_, rfl, rfl, rfl, rfl, rfl⟩
 
@@ -219,9 +260,6 @@ theorem blocked_waiter_next_serve_releases {l : Life} (h : Reach l) (_hc : l.cha
   obtain ⟨l', hs, hcl, _, _, hb⟩ := eof_in_serve_leads_to_closed h r
   obtain ⟨res, hv, hrel⟩ := blocked_are_released (.eofInServe r) hs (Or.inr (Or.inl ⟨r, rfl⟩))
   exact ⟨l', res, hs, hcl, hb, hv, hrel⟩
-
-theorem reports_closed_implies_channel_closed {l : Life} (h : Reach l) (hc : l.closed = true)
-    (hi : l.inClose = false) : l.chanClosed = true := (tables_cleared_on_close h hc hi).2
 
 /-- **no_hang (pending requests).** After the end, waiting for a request that was pending returns at once:
 with EOFError, or its own timeout if that has passed, (or the raising hook's exception) — never a value,
